@@ -89,7 +89,7 @@ Definition opt_is (o : option node) (r : res node) : bool :=
    2. print: the model writes exactly the keys found in the printed text;
    3. the loaded configuration is "valid" in the sense of the theorems (well-typed, every
       struct a fixed point of its hook);
-   4. the model predicts the reload — including every lossy one. *)
+   4. the model predicts the reload — including every lossy one — and the reload of the reload. *)
 Definition agree (c : case) : bool :=
   match load (c_doc c) with
   | Err EPanic => c_panic c
@@ -99,6 +99,7 @@ Definition agree (c : case) : bool :=
       && node_eqb (erase (print (c_f1 c))) (c_skel c)
       && valid (c_f1 c)
       && opt_is (c_f2 c) (load (print (c_f1 c)))
+      && match c_f2 c with Some f2 => opt_is (c_f3 c) (load (print f2)) | None => true end
   end.
 
 (* the property, on the implementation's output alone: reloading the printed configuration
